@@ -202,6 +202,10 @@ def observer_completeness(ctx, lc, cls, rule="R12.a"):
                     break
     del selfname
     if ok:
+        n_before = len(chk.findings)
+        path_reset_cover(ctx, cls, upd, rst, rule, cls.name, skip=("dispatcher",))
+        ok = len(chk.findings) == n_before
+    if ok:
         chk.ok(rule, cls.qualname, rst.loc(), f"W_update={sorted({w.attr for w in wu})} ⊆ W_reset={sorted(strong | entry)}")
     return wu, wr
 
@@ -479,6 +483,10 @@ def dispatcher_reset(ctx, lc, disp, rule):
             )
             break
     if not bad:
+        n_before = len(chk.findings)
+        path_reset_cover(ctx, disp, dispatch, reset, rule, "Dispatcher", skip=("subscribers",), also=(sched.qualname,))
+        bad = len(chk.findings) != n_before
+    if not bad:
         chk.ok(rule, reset.qualname, reset.loc(), f"W_dispatch={sorted({w.attr for w in wd})} ⊆ W_reset={sorted(strong)}")
     # initialising expressions agree
     def norm_init(s):
@@ -558,3 +566,113 @@ def environments(ctx, lc, disp):
     from .c18 import sibling_constructor_agreement
 
     sibling_constructor_agreement(ctx, rule)
+
+
+# --------------------------------------------------------------------------
+# path-level cover: an attribute that the update phase can write must be
+# written on *every* returning path of reset that is compatible with the
+# configuration under which the update wrote it.
+def _entry_self(fr):
+    """True if ``self`` of this (possibly inlined) frame is the object the
+    entry method runs on."""
+    while fr.parent is not None:
+        p0 = fr.fi.params[0] if fr.fi.params else None
+        b = fr.bindings.get(p0) if p0 else None
+        q0 = fr.parent.fi.params[0] if fr.parent.fi.params else None
+        if not (isinstance(b, ast.Name) and b.id == q0):
+            return False
+        fr = fr.parent
+    return True
+
+
+def _path_facts(ctx, cls, fn, depth=3, also=()):
+    """[(attrs written, atoms about the entry object, path)] for the returning
+    paths of ``fn``; writes inside a loop count once the loop is entered."""
+    from .common import resolve_root, decompose
+
+    def rel(e):
+        return e.kind in ("write", "branch", "loop")
+
+    own = set(cls.mro) | {cls.qualname} | set(also)
+
+    def inline_filter(t):
+        # the object's own methods (and those of the named owned classes);
+        # not the observers a dispatcher notifies, nor arbitrary collaborators
+        return t.cls is None or t.cls.qualname in own
+
+    eng = ctx.engine(relevant=rel, max_depth=depth, unroll=1, inline_filter=inline_filter)
+    paths = eng.paths(fn, cls)
+    selfname = fn.params[0]
+    loop_writes: dict[int, set] = {}
+    per_path = []
+    for p in paths:
+        stack, direct, entered = [], set(), set()
+        atoms: dict[str, bool] = {}
+        for ev in p.events:
+            if ev.kind == "loop":
+                ph = ev.data.get("phase")
+                if ph == "enter":
+                    stack.append(id(ev.node))
+                    entered.add(id(ev.node))
+                elif ph == "exit" and stack and stack[-1] == id(ev.node):
+                    stack.pop()
+            elif ev.kind == "write" and not ev.data.get("local"):
+                root, chain, fr = resolve_root(ev)
+                if root == selfname and chain and fr is not None and fr.parent is None and not str(chain[0]).endswith("()"):
+                    a = chain[0]
+                    direct.add(a)
+                    for l in stack:
+                        loop_writes.setdefault(l, set()).add(a)
+            elif ev.kind == "branch" and _entry_self(ev.frame):
+                text = lambda n, _f=ev.fi: ctx.norm.xtext(_f, n)  # noqa: E731
+                for a, v in decompose(ev.node, ev.data["taken"], text):
+                    atoms[a] = v
+        per_path.append((p, direct, entered, atoms))
+    out = []
+    for p, direct, entered, atoms in per_path:
+        if p.outcome == "raise":
+            continue
+        attrs = set(direct)
+        for l in entered:
+            attrs |= loop_writes.get(l, set())
+        out.append((attrs, atoms, p))
+    return out
+
+
+def path_reset_cover(ctx, cls, upd, rst, rule, label, skip=(), also=()):
+    """Violation when some returning path of ``rst`` leaves an attribute
+    untouched that a path of ``upd`` (compatible configuration) writes, while
+    other paths of ``rst`` do write it (an early exit / one-sided branch)."""
+    chk = ctx.chk
+    try:
+        uf = _path_facts(ctx, cls, upd, also=also)
+        rf = _path_facts(ctx, cls, rst, also=also)
+    except AnalysisError as e:
+        chk.notes.append(f"path-level reset cover skipped for {cls.name}: {e}")
+        return 0
+    r_all = set().union(*[a for a, _, _ in rf]) if rf else set()
+    n = 0
+    for attr in sorted(r_all - set(skip)):
+        writers = [(a, at, p) for a, at, p in uf if attr in a]
+        if not writers:
+            continue
+        n += 1
+        for rattrs, ratoms, rp in rf:
+            if attr in rattrs:
+                continue
+            # a guard that inspects the attribute itself ("already empty")
+            if any(f"self.{attr}" in t or f".{attr}" in t for t in ratoms):
+                continue
+            for _, uatoms, up in writers:
+                if all(ratoms.get(t, v) == v for t, v in uatoms.items()):
+                    conds = [f"{t} is {v}" for t, v in ratoms.items()] or ["(an early exit in an inlined callee)"]
+                    last = rp.events[-1] if rp.events else None
+                    chk.violation(
+                        rule, f"{cls.qualname}.{rst.name}", last.node if last is not None else None,
+                        f"{label}: a path of {rst.name} ({'; '.join(conds)[:160]}) returns without touching `self.{attr}`, which "
+                        f"{upd.name} modifies and the other paths of {rst.name} re-establish: on that path the state of the "
+                        "previous episode survives the reset",
+                        loc=last.loc if last is not None else rst.loc(), path=rp.describe(),
+                    )
+                    return n
+    return n
